@@ -40,6 +40,7 @@ func main() {
 	vdir := flag.String("verif", "/verif", "verif root")
 	only := flag.String("only", "", "verify only functions whose contract key contains this")
 	dump := flag.Bool("dump", false, "print every obligation result")
+	scratch := flag.String("scratch", "", "write out/ and evidence under this directory instead of /verif (self-test)")
 	updateExpected := flag.Bool("update-expected", false, "rewrite expected/<id>.obligations from this run")
 	flag.Parse()
 	if *prop == "" {
@@ -114,7 +115,11 @@ func main() {
 	if *tier == "thorough" {
 		ms = 120000
 	}
-	outDir := filepath.Join(*vdir, "out", *prop)
+	outRoot := *vdir
+	if *scratch != "" {
+		outRoot = *scratch
+	}
+	outDir := filepath.Join(outRoot, "out", *prop)
 	os.RemoveAll(outDir)
 	solveAll(v.obls, outDir, ms, 8)
 	tSolve := time.Since(t0) - tLoad - tExec
@@ -282,7 +287,7 @@ func main() {
 		fmt.Println(l)
 	}
 	wall := time.Since(t0).Seconds()
-	writeEvidence(v, *vdir, *prop, *tier, seed, agg, order, nObl, nDis, violations, wall, known, tLoad.Seconds(), tExec.Seconds(), tSolve.Seconds())
+	writeEvidence(v, outRoot, *prop, *tier, seed, agg, order, nObl, nDis, violations, wall, known, tLoad.Seconds(), tExec.Seconds(), tSolve.Seconds())
 	fmt.Printf("%s %s: %d/%d obligations discharged over %d functions (%d queries) in %.1fs (load %.1fs, symexec %.1fs, solve %.1fs); violations=%d known=%d\n",
 		*prop, *tier, nDis, nObl, len(v.funcsVerified), len(v.obls), wall, tLoad.Seconds(), tExec.Seconds(), tSolve.Seconds(), violations, len(known))
 	if violations > 0 {
